@@ -137,6 +137,7 @@ def handleConc (payload extra : String) : String :=
       "ok\t" ++ v
   | "wit" :: _ => "ok\tok"
   | "race" :: _ => "ok\tok"
+  | "envconc" :: _ => "ok\tok"   -- C11: the oracle (solo run) is harness-side; the property demands `ok`
   | _ => "bad-op"
 
 end LispModel.ConcDriver
